@@ -179,9 +179,11 @@ class Case:
         self.files = {}      # name -> [expr]
         self.tags = set()
         self.timeout = 8
+        self.wcoll_env = None    # value of the WCOLL environment variable (a file of `files`), None = unset
 
     def to_json(self):
-        return {"items": self.items, "opts": self.opts, "files": self.files, "tags": sorted(self.tags), "timeout": self.timeout}
+        return {"items": self.items, "opts": self.opts, "files": self.files, "tags": sorted(self.tags), "timeout": self.timeout,
+                "wcoll_env": self.wcoll_env}
 
     @staticmethod
     def from_json(d):
@@ -191,6 +193,7 @@ class Case:
         c.files = {k: list(v) for k, v in d["files"].items()}
         c.tags = set(d.get("tags", []))
         c.timeout = d.get("timeout", 8)
+        c.wcoll_env = d.get("wcoll_env")
         return c
 
 
@@ -204,6 +207,8 @@ def rebase(case, cwd):
     case.files = {ren[k]: v for k, v in case.files.items()}
     case.items = [(k, sub(t)) for k, t in case.items]
     case.opts = [(f, sub(a)) for f, a in case.opts]
+    if case.wcoll_env:
+        case.wcoll_env = ren.get(case.wcoll_env, case.wcoll_env)
     return case
 
 
@@ -346,6 +351,34 @@ def gen_case(rng, profile, cwd):
             c.items.reverse()
         c.tags.add("xfile-len=%d" % len(",".join(names)))
         c.timeout = 4
+    elif profile == "envwcoll":
+        # target source dimension: the targets come ONLY from the file named by $WCOLL (no target word in any option;
+        # every option is an exclusion or a filter), or $WCOLL is set but -w names targets (then it is ignored)
+        exprs = [gen_target(rng, "free").text() for _ in range(rng.choice([1, 2, 3]))]
+        f = mkfile(exprs)
+        c.wcoll_env = f
+        decoy = rng.random() < 0.25
+        if decoy:
+            c.items = [("tgt", gen_target(rng, "free").text()) for _ in range(rng.choice([1, 2]))]
+        else:
+            c.items = [("tfile", f)]
+        names = assembled_names(c)
+        others = []
+        for _ in range(rng.choice([1, 1, 2, 3])):
+            r = rng.random()
+            if r < 0.55:
+                others.append(("xcl", gen_exclusion(rng, names, "free")))
+            elif r < 0.7:
+                others.append(("xfile", mkfile([gen_exclusion(rng, names, "free")])))
+            else:
+                others.append((rng.choice(["keep", "drop", "drop"]), gen_regex(rng, names)))
+        its = list(c.items)
+        for o in others:
+            its.insert(rng.randrange(len(its) + 1), o)
+        c.items = its
+        c.tags.add("wcoll-env-" + ("ignored" if decoy else "source"))
+        c.opts = write_opts(rng, [it for it in c.items if decoy or it != ("tfile", f)])
+        return c
     else:
         nt = rng.choice([1, 2, 2, 3, 4])
         for _ in range(nt):
@@ -384,8 +417,13 @@ def hxs(s):
     return hx(s.encode("latin1")) if s else "-"
 
 
+PROBED = {"2br": False}      # F02-2BR as probed on the real pdsh (set by run)
+
+
 def case_text(case, table, bad, d2):
-    lines = ["d2 %d" % (1 if d2 else 0)]
+    lines = ["d2 %d" % (1 if d2 else 0), "br2 %d" % (1 if PROBED["2br"] else 0)]
+    if case.wcoll_env:
+        lines.append("env %s" % hxs(case.wcoll_env))
     for name, exprs in case.files.items():
         lines.append(" ".join(["file", hxs(name)] + [hxs(e) for e in exprs]))
     for (p, h), v in table.items():
@@ -435,10 +473,20 @@ def run_real(cli, case):
     args = ["-R", "exec", "-f", "1", "-N"]
     for flag, arg in case.opts:
         args += [flag, arg]
-    rc, out, err = cli.run(args + ["echo", "%h"], timeout=case.timeout)
+    def go(timeout):
+        if not case.wcoll_env:
+            return cli.run(args + ["echo", "%h"], timeout=timeout)
+        env = {"PATH": "/usr/bin:/bin", "HOME": cli.cwd, "LC_ALL": "C", "WCOLL": case.wcoll_env}
+        try:
+            p = subprocess.run([cli.pdsh] + args + ["echo", "%h"], stdout=subprocess.PIPE, stderr=subprocess.PIPE,
+                               cwd=cli.cwd, env=env, timeout=timeout, stdin=subprocess.DEVNULL)
+            return p.returncode, p.stdout, p.stderr
+        except subprocess.TimeoutExpired as e:
+            return "timeout", e.stdout or b"", e.stderr or b""
+    rc, out, err = go(case.timeout)
     if rc == "timeout":
         # a loaded machine is not a spinning pdsh: ask again with plenty of time
-        rc, out, err = cli.run(args + ["echo", "%h"], timeout=case.timeout * 6)
+        rc, out, err = go(case.timeout * 6)
     if rc == "timeout":
         return "timeout", None, b""
     if rc == 0:
@@ -585,7 +633,7 @@ def judge(ctx, cli, oracle, case, d2, dist, shrinking=False, pre=None):
 def shrink(ctx, cli, oracle, case, d2, tag):
     """drop items one at a time while the same kind of problem stays; options rewritten plainly"""
     ctx.nshrunk = getattr(ctx, "nshrunk", 0) + 1
-    if ctx.nshrunk > 10:
+    if ctx.nshrunk > 10 or case.wcoll_env:      # ($WCOLL cases are short; their options are not rewritten)
         return case
     import random
     rng = random.Random(1)
@@ -630,6 +678,25 @@ def probe_d2(cli):
     return None
 
 
+def probe_2br(cli):
+    """F02-2BR on the real pdsh: do exclusions and filters see the names behind the second pair of brackets?
+    True / False; None when the sub-tests disagree"""
+    def hosts(args):
+        rc, out, err = cli.run(["-R", "exec", "-f", "1", "-N"] + args + ["echo", "%h"], timeout=20)
+        return out.split() if rc == 0 else None
+    a = hosts(["-w", "foo[1-2]-[0-1]", "-x", "foo1-0"])
+    b = hosts(["-w", "foo[1-2]-[0-1],/-0$/"])
+    c = hosts(["-w", "foo[1-2]-[0-1]", "-x", "foo[1-2]-0"])
+    fixed = [a == [b"foo1-1", b"foo2-0", b"foo2-1"], b == [b"foo1-0", b"foo2-0"], c == [b"foo1-1", b"foo2-1"]]
+    asfound = [a == [b"foo1-0", b"foo1-1", b"foo2-0", b"foo2-1"], b is None or b == [],
+               c == [b"foo1-0", b"foo1-1", b"foo2-0", b"foo2-1"]]
+    if all(fixed):
+        return True
+    if all(asfound):
+        return False
+    return None
+
+
 def load_corpus():
     d = os.path.join(VERIF_CORPUS, "C02")
     out = []
@@ -658,7 +725,8 @@ def run(ctx):
                    "look-alikes with other padding / cut or extended prefix / longer number), ^files and -^files (incl. "
                    "exclusion files whose ranged form is 4093..4097 / 8191.. bytes), /re/ and -/re/ (anchors, classes, "
                    "alternation, patterns regcomp refuses), duplicates and overlaps on purpose, options in random order and "
-                   "merged with commas; non-trivial = >= 3 assembled hosts, >= 1 exclusion or filter that removes at least one "
+                   "merged with commas; target SOURCE: -w words, -w ^file, and the file named by $WCOLL with no target word "
+                   "in any option (or $WCOLL set and overridden by -w); non-trivial = >= 3 assembled hosts, >= 1 exclusion or filter that removes at least one "
                    "and keeps at least one host; distinct = distinct option list"}
     dist = {"profiles": {}}
     cli = Cli(ctx)
@@ -669,6 +737,11 @@ def run(ctx):
         if d2 is None:
             ctx.broken.append(("C-BROKEN", "D2 probe", "pdsh neither spins nor answers on a 4200-byte exclusion file"))
             d2 = False
+        br2 = probe_2br(cli)
+        dist["probed-2BR-fixed"] = br2
+        if br2 is None:
+            ctx.broken.append(("C-BROKEN", "F02-2BR probe", "the two-bracket sub-tests on the real pdsh disagree"))
+        PROBED["2br"] = bool(br2)
         if ctx.replay:
             cases = [rebase(Case.from_json(json.load(open(ctx.replay))["case"]), cli.cwd)]
             profs = ["replay"]
@@ -678,7 +751,8 @@ def run(ctx):
                 cases.append(rebase(c, cli.cwd))
                 profs.append("corpus")
             n = 260 if ctx.quick() else 5000
-            profiles = ["free", "free", "free", "dup", "dup", "regex", "regex", "2br", "big", "span", "firstrange"]
+            profiles = ["free", "free", "free", "dup", "dup", "regex", "regex", "2br", "big", "span", "firstrange",
+                        "envwcoll", "envwcoll"]
             for i in range(n):
                 p = rng.choice(profiles)
                 cases.append(gen_case(rng, p, cli.cwd))
